@@ -250,6 +250,36 @@ pub fn judge(case: &Case, l: &mut Local) {
                     Some(other) => v(l, ty, "json-amount-not-a-number", "-", format!("{ty}: amount {:?} is {other} in JSON", case.amount), case),
                     None => {}
                 }
+                // the JSON route must be as strict as the text route: an amount leaf that is not a JSON number
+                // (a string in any float spelling) must not be read, or at least never come out as MT text
+                if case.class == "one" || case.class == "half" {
+                    for bad in ["NaN", "inf", "-inf", "1e3", "-5", ".5", "0x10", "100,50", "", "1_000"] {
+                        let mut jb = j.clone();
+                        fn set_amount(v: &mut Value, nv: &Value) -> bool {
+                            if let Value::Object(m) = v {
+                                for k in ["amount", "rate"] {
+                                    if m.contains_key(k) {
+                                        m.insert(k.to_string(), nv.clone());
+                                        return true;
+                                    }
+                                }
+                                for x in m.values_mut() {
+                                    if set_amount(x, nv) {
+                                        return true;
+                                    }
+                                }
+                            }
+                            false
+                        }
+                        if !set_amount(&mut jb, &Value::String(bad.to_string())) {
+                            break;
+                        }
+                        if let Ok(Ok(vb)) = guard(|| (ops.from_json)(&jb)) {
+                            let out = guard(|| vb.to_swift()).unwrap_or_default();
+                            v(l, ty, "json-accepts-non-number", "string", format!("{ty}: an amount given as the JSON string {bad:?} is read and serialised as {out:?}"), case);
+                        }
+                    }
+                }
                 if let Ok(Ok(v2)) = guard(|| (ops.from_json)(&j))
                     && let Ok(s2) = guard(|| v2.to_swift())
                 {
